@@ -242,7 +242,7 @@ def _df_fillna(df, method = None, axis = 0, limit = None):
                     res = res[nonan.index[0]:]
                 else:
                     res = res.iloc[:0]
-            elif m == 'nona':
+            elif m == 'nona' and len(res): ## an empty frame has nothing to drop (and an empty non-boolean key would drop its columns)
                 res = res[nonan.values]
         else:
             if is_num(limit) and limit<0:
